@@ -49,11 +49,17 @@ THEOREMS = [P + t for t in [
     "cache_transparent_history",
     "cache_effective",
     "sortNodesM_eq_sortNodes",
+    "libStableSort_contract",
     "sort_spec",
     "sort_unique",
     "isStableSortedPerm_sound",
     "isStableSortedPerm_complete",
     "decodeSort_spec",
+    "keyLangs_own",
+    "sharedLang_counterexample",
+    "collator_sees_own_key",
+    "collator_history_sees_own_keys",
+    "collator_cache_bounded",
     "process_positions",
 ]]
 
@@ -105,20 +111,36 @@ def current_sentinel():
         return G.SENTINEL
 
 
+def fetch_matrices(harness, model, ucases):
+    """ask ICU (fresh collator per key's own lang / case-order) for the sign matrix of each case's strings"""
+    lines = []
+    for c in ucases:
+        lines += G.coll_lines(c)
+    if not lines:
+        for c in ucases:
+            G.set_matrices(c, [])
+            c["matrix_ok"] = "ok"
+        return
+    rc, out = common.sh([harness], inp=("\n".join(lines) + "\n").encode("utf-8"), env=ENV)
+    mats = [m[4:] if m.startswith("mat ") else "0" for m in out.split("\n")]
+    rc, out = common.sh([model], inp=("\n".join("collcheck " + m for m in mats[:len(lines)]) + "\n").encode())
+    oks = out.split("\n")
+    pos = 0
+    for c in ucases:
+        n = len(G.coll_lines(c))
+        G.set_matrices(c, mats[pos:pos + n])
+        bad = [v for v in oks[pos:pos + n] if v != "ok"]
+        c["matrix_ok"] = bad[0] if bad else "ok"
+        pos += n
+
+
 def run_cases(harness, model, cases, work, tag):
     """-> list of dict(case, status, …); status in ok | spec | poslast | echo | error | crash | model"""
     sentinel = current_sentinel()
     # second stream: ask the library's own ICU functor for the collation of each case's strings
     ucases = [c for c in cases if "pool" in c and "matrix" not in c]
     if ucases:
-        creq = "\n".join(G.coll_line(c) for c in ucases) + "\n"
-        rc, out = common.sh([harness], inp=creq.encode("utf-8"), env=ENV)
-        mats = out.split("\n")
-        for c, m in zip(ucases, mats):
-            c["matrix"] = m[4:] if m.startswith("mat ") else "0"
-        rc, out = common.sh([model], inp=("\n".join("collcheck " + c["matrix"] for c in ucases) + "\n").encode())
-        for c, v in zip(ucases, out.split("\n")):
-            c["matrix_ok"] = v
+        fetch_matrices(harness, model, ucases)
     req = os.path.join(work, "c16_%s.req" % tag)
     built = [G.build(c) for c in cases]
     with open(req, "w") as f:
@@ -209,7 +231,7 @@ def run_cases(harness, model, cases, work, tag):
 def shrink(harness, model, case, work, status):
     """delete rows, then keys, while the same kind of failure persists"""
     cur = case
-    budget = 80
+    budget = 50
 
     def still(c):
         nonlocal budget
@@ -236,11 +258,47 @@ def shrink(harness, model, case, work, status):
             c = dict(cur)
             c["keys"] = cur["keys"][:j] + cur["keys"][j + 1:]
             c["rows"] = [row[:j] + row[j + 1:] for row in cur["rows"]]
+            c.pop("matrix", None)
+            c.pop("matrix_ok", None)
+            ps = c.get("pre_sort")
+            if ps:
+                if ps["key"] == j:
+                    c.pop("pre_sort")
+                elif ps["key"] > j:
+                    c["pre_sort"] = dict(ps, key=ps["key"] - 1)
             # 'dot'/'child' exclusivity is preserved by deletion
             if still(c):
                 cur = c
                 changed = True
+    if cur.get("pre_sort") and budget > 0:
+        c = dict(cur)
+        c.pop("pre_sort")
+        if still(c):
+            cur = c
     return cur
+
+
+def lang_last_wins(harness, model, case, order):
+    """Is the implementation's order the stable sorted permutation when EVERY key is collated with the language of
+    the last xsl:sort that has a lang attribute (the NodeSortKey-shares-langString defect)?  Returns the language or None."""
+    import copy
+    if "pool" not in case:
+        return None
+    langs = [k["coll"][1] for k in case["keys"] if not k["number"]]
+    if len(set(langs)) < 2:
+        return None
+    eff = "-"
+    for l in langs:
+        if l != "-":
+            eff = l
+    alt = copy.deepcopy(case)
+    for k in alt["keys"]:
+        if not k["number"]:
+            k["coll"][1] = eff
+    alt.pop("matrix", None)
+    fetch_matrices(harness, model, [alt])
+    rc, out = common.sh([model], inp=(G.check_line(alt, order) + "\n").encode())
+    return eff if out.strip() == "ok" else None
 
 
 def find_history(harness, model, cases, i, work, status):
@@ -399,6 +457,7 @@ def run(ctx):
     reeval = 0
     disagreements = []
     reported = 0
+    lang_hits = 0
     for i, res in enumerate(results):
         case = res["case"]
         st = res["status"]
@@ -423,7 +482,19 @@ def run(ctx):
         reeval += res.get("reeval", 0)
         if st == "ok":
             continue
-        if reported >= 5:
+        # the shared-langString defect produces many failing cases: classify each cheaply (no shrinking after the
+        # first) so that it never uses up the reporting budget of a different violation
+        if st == "spec" and "pool" in case:
+            eff = lang_last_wins(harness_for(i), model, case, res.get("order") or [])
+            if eff is not None:
+                lang_hits += 1
+                if lang_hits > 1:
+                    line, xml, xsl = G.build(case)
+                    ctx.fail("sort.lang-last-wins[all keys collated as lang=%s]: %s" % (eff, G.describe(case)),
+                             "keys with different lang attributes are all collated with the language of the last xsl:sort that has one: " + res["detail"],
+                             {"case": case_to_json(case), "history": [], "xml": xml, "xsl": xsl, "request": line})
+                    continue
+        if reported >= 4:
             agree = agree and st not in ("model",)
             continue
         reported += 1
@@ -443,6 +514,12 @@ def run(ctx):
                 sres, _, _ = run_cases(hz, model, [small], work, "shrunk")
                 sr = sres[0]
                 key = "sort.%s%s: %s" % (st, ".asan" if hz is harness_asan else "", G.describe(small))
+                if st == "spec":
+                    eff = lang_last_wins(hz, model, small, sr.get("order") or [])
+                    if eff is not None:
+                        key = "sort.lang-last-wins[all keys collated as lang=%s]: %s" % (eff, G.describe(small))
+                        what = ("keys with different lang attributes: every key is collated with the language of the LAST "
+                                "xsl:sort that has one (NodeSortKey keeps a pointer to sortChildren's shared langString)")
                 line, xml, xsl = G.build(small)
                 ctx.fail(key, "%s: %s | impl %s | model %s" % (what, sr["detail"] or res["detail"], sr.get("triples"), (sr["model"] or "")[:200]),
                          {"case": case_to_json(small), "history": [], "xml": xml, "xsl": xsl, "request": line})
@@ -493,6 +570,9 @@ def replay(ctx, path):
         c["rows"] = [[(v[0], tuple(v[1]) if isinstance(v[1], list) else v[1]) + ((float(v[2]),) if v[0] == "n" else ())
                       for v in row] for row in c["rows"]]
         return c
+    first["input"]["case"].pop("matrix", None)
+    for h in first["input"].get("history", []):
+        h.pop("matrix", None)
     case = load(first["input"]["case"])
     hist = [load(h) for h in first["input"].get("history", [])]
     res, _, _ = run_cases(harness, model, hist + [case], work, "replay")
